@@ -22,6 +22,7 @@ import (
 	"sort"
 	"strconv"
 	"strings"
+	"sync"
 
 	"github.com/cornelk/hashmap"
 	"github.com/pkg/errors"
@@ -42,6 +43,10 @@ const (
 	Master Role = iota
 	Slave
 )
+
+// clusterMu serializes the topology hand-over between the refresh goroutine
+// (updateClusterNodes) and the event loop (ticker).
+var clusterMu sync.Mutex
 
 type RedisWrapper interface {
 	Dial(address, passwd string, options ...redis.DialOption) (redis.Conn, error)
@@ -151,12 +156,17 @@ func (c *ClusterNodes) updateClusterNodes(msg string) error {
 	}
 
 	if c.isChanged(allNodes) {
+		// The node map, the replica sets and the flag are handed to the event loop as
+		// one unit: its ticker takes the same lock while it rebuilds pools and slot
+		// table from them and clears the flag.
+		clusterMu.Lock()
 		vhook.Point("cluster.beforeSetServer")
 		c.setServer(allNodes)
 		vhook.Point("cluster.beforeSetReplicaset")
 		c.setReplicaset(allNodes)
 		vhook.Point("cluster.beforeServerChanged")
 		c.serverChanged = true
+		clusterMu.Unlock()
 	}
 
 	return nil
